@@ -75,6 +75,7 @@ func main() {
 		}()
 		check(c)
 	}()
+	c.R.Clauses = append(c.R.Clauses, extraClauses[*prop]...)
 	if *tier == "thorough" {
 		thoroughExtras(c, check, *prop, *repo, *verif)
 	}
